@@ -380,6 +380,8 @@ pub fn gen_history(pid: &str, rng: &mut Rng, uni: &Universe, stats: &mut Stats) 
                 let m = WMessage { parts: vec![WPart::Item { x: x.as_ref().to_vec(), y: y.as_ref().to_vec(), values, have_local: true }] };
                 h.push(AOp::SyncProcess { ns, m, now: T0 + 10 });
             }
+            // C12: the policy changes while replicas are open and entries keep arriving
+            81..=84 if c12 && rng.chance(2, 3) => h.push(AOp::SetPolicy { ns, p: gen_policy(rng) }),
             81..=84 => h.push(AOp::GetExact { ns, au, key, ie: rng.chance(1, 2) }),
             85..=88 => h.push(AOp::GetAll { ns }),
             89..=90 => { stats.inc("drop"); h.push(AOp::Drop { ns }) }
